@@ -6,7 +6,13 @@ import Agd.Driver.Util
 init <udp> <tcp> <doq> <upsudp> <upstcp>     -> ok
 recv <path> <pick|-> <prehex|-> <wirehex|->  -> <buflen> <first 48 residue bytes hex|-> <outcome> <consumed>
 old  <path> <pick|-> <prehex|-> <wirehex|->  -> same, with the pre-fix DoQ / upstream code
+acc  <rid> <path> <bid> <prehex|-> <wirehex|-> -> <buflen> <first 48 residue bytes hex|-> <reject:<why>|pending|ignored>
+srv  <rid>                                    -> <view:<hex|->|none>
+pfx  <arrhex|-> <len> <msghex|->              -> <hex of the bytes packWithPrefix writes>
+pudp <arrhex|-> <len> <msghex|->              -> <hex of the bytes the UDP writer writes>
 ```
+`acc`/`srv` drive the concurrent system (`Sys`): buffers have identities, `acc` is Get + read + guards,
+`srv` is the worker (Unpack of the recorded slice of the buffer as it is now, then Put).
 `outcome` is `reject:<why>` or `view:<hex|->`; `consumed` is the number of stream bytes taken (TCP). -/
 namespace Agd.Driver.C06
 open Agd.Buffers Agd.Driver
@@ -31,7 +37,7 @@ def hex (b : Bytes) : String :=
 
 def parsePath : String → Option Path
   | "udp" => some .udp | "tcp" => some .tcp | "doq" => some .doq
-  | "upsudp" => some .upsUdp | "upstcp" => some .upsTcp | _ => none
+  | "upsudp" => some .upsUdp | "upstcp" => some .upsTcp | "doh" => some .doh | _ => none
 
 def showWhy : Why → String
   | .short => "short" | .badsize => "badsize" | .readerr => "readerr"
@@ -54,21 +60,47 @@ def doRecv (old : Bool) (s : Server) (p : Path) (pick pre wire : String) : Serve
     | _ => op.wire.length
   (r.1, s!"{seen.length} {hex (seen.take 48)} {showOut r.2} {consumed}")
 
-def step (s : Server) : List String → Server × String
+structure St where
+  srv : Server
+  sys : Sys
+
+def doAcc (y : Sys) (rid : Nat) (p : Path) (bid : Nat) (pre wire : Bytes) : Sys × String :=
+  let seen := match p with
+    | .upsUdp | .upsTcp => overwrite (y.heap p bid) pre
+    | _ => y.heap p bid
+  if (y.pend rid).isSome || (y.own p bid).isSome then (y, s!"{seen.length} {hex (seen.take 48)} ignored")
+  else
+    let r := y.accept rid p bid pre wire
+    let out := match r.2 with
+      | some o => showOut o
+      | none => "pending"
+    (r.1, s!"{seen.length} {hex (seen.take 48)} {out}")
+
+def step (s : St) : List String → St × String
   | ["init", a, b, c, d, e] =>
-    (Server.init { udp := nat! a, tcp := nat! b, doq := nat! c, upsUdp := nat! d, upsTcp := nat! e }, "ok")
+    let cfg : Cfg := { udp := nat! a, tcp := nat! b, doq := nat! c, upsUdp := nat! d, upsTcp := nat! e }
+    ({ srv := Server.init cfg, sys := Sys.init cfg }, "ok")
   | ["recv", "doh", _, _, wire] =>
     (s, s!"0 - {showOut (recvDoH (unhex wire))} {(unhex wire).length}")
   | ["recv", path, pick, pre, wire] =>
     match parsePath path with
-    | some p => doRecv false s p pick pre wire
+    | some p => let r := doRecv false s.srv p pick pre wire; ({ s with srv := r.1 }, r.2)
     | none => (s, "bad-op")
   | ["old", path, pick, pre, wire] =>
     match parsePath path with
-    | some p => doRecv true s p pick pre wire
+    | some p => let r := doRecv true s.srv p pick pre wire; ({ s with srv := r.1 }, r.2)
     | none => (s, "bad-op")
+  | ["acc", rid, path, bid, pre, wire] =>
+    match parsePath path with
+    | some p => let r := doAcc s.sys (nat! rid) p (nat! bid) (unhex pre) (unhex wire); ({ s with sys := r.1 }, r.2)
+    | none => (s, "bad-op")
+  | ["srv", rid] =>
+    let r := s.sys.serve (nat! rid)
+    ({ s with sys := r.1 }, match r.2 with | some o => showOut o | none => "none")
+  | ["pfx", arr, len, msg] => (s, hex (packWithPrefix (unhex arr) (nat! len) (unhex msg)).1)
+  | ["pudp", arr, len, msg] => (s, hex (packUDP (unhex arr) (nat! len) (unhex msg)).1)
   | _ => (s, "bad-op")
 
-def main : IO Unit := loop step (Server.init Cfg.prod)
+def main : IO Unit := loop step { srv := Server.init Cfg.prod, sys := Sys.init Cfg.prod }
 
 end Agd.Driver.C06
